@@ -17,6 +17,8 @@ pub mod c04;
 #[cfg(feature = "nightly")]
 pub mod c14;
 #[cfg(feature = "nightly")]
+pub mod c15;
+#[cfg(feature = "nightly")]
 pub mod osview;
 #[cfg(feature = "nightly")]
 pub mod prot;
@@ -51,6 +53,8 @@ pub fn dispatch(name: &str, cx: &mut Ctx) -> bool {
         "c04" => c04::run(cx),
         #[cfg(feature = "nightly")]
         "c14" => c14::run(cx),
+        #[cfg(feature = "nightly")]
+        "c15" => c15::run(cx),
         #[cfg(feature = "sodium")]
         "c05" => c05::run(cx),
         #[cfg(feature = "sodium")]
